@@ -191,6 +191,8 @@ def run(ctx):
             if len(res.samples) < 6 and any(n["kind"] == "Map::Iter" for n in bs.nexts) and role == "root":
                 res.samples.append({"body": b.path, "map_loops": sum(1 for n in bs.nexts if n["kind"] == "Map::Iter"),
                                     "verdict": "iterator only stepped; loop-carried state = accumulator, field states, iterator; field states not read in the loop"})
+    import controls
+    controls.run(ctx, res, "C15", lambda crate, b, v, bs: rules_for_body(v, bs, None)[0])
     res.analysed["map_loops"] = loops
     res.floor("map loops", loops, 40)
     res.trusted_base = ["rustc nightly MIR construction", "mirfacts extractor", "rules/p_c15.py, rules/skeleton.py"]
